@@ -7,6 +7,7 @@ import (
 	"net"
 	"net/netip"
 	"reflect"
+	"slices"
 	"sort"
 	"strings"
 
@@ -127,7 +128,7 @@ func build(w world) ech.ResolveResult {
 			h.IPv6Hint = append(h.IPv6Hint, append(net.IP{}, v4b...))
 		}
 		if s.ECH > 0 {
-			h.ECH = []byte{0, byte(s.ECH), 0xec}
+			h.ECH = append(make([]byte, 0, 8), 0, byte(s.ECH), 0xec) // (with spare capacity, like a view into a longer buffer)
 		} else if s.ECH < 0 {
 			h.ECH = []byte{} // an ech parameter of length zero: present, empty
 		}
@@ -212,7 +213,15 @@ func alpnSet(l []string) string {
 // naming a target for which no addresses are known contributes nothing (false)
 // or its hints (true); the check accepts either.
 func reference(w world, hintsForEmptyTarget bool) []tgt {
-	r := build(w)
+	return referenceOf(build(w), w.Network, w.Port, hintsForEmptyTarget)
+}
+
+// referenceOf is the specification applied to a result (r.Port is taken from the port argument).
+func referenceOf(r ech.ResolveResult, network string, wPort int, hintsForEmptyTarget bool) []tgt {
+	w := struct {
+		Network string
+		Port    int
+	}{network, wPort}
 	famOK := func(ip net.IP) bool {
 		switch w.Network {
 		case "tcp4", "udp4":
@@ -434,6 +443,32 @@ func evalWorld(r *ev.Run, w world) {
 			r.Violation("impure:same-sequence-after-consumer-edits", fmt.Sprintf("a consumer edited the ALPN lists it was handed and ranged over the same sequence value again: %v (a fresh call gave %v)", again, got), w)
 		}
 	}
+	// what a target is handed is ITS list: a consumer that appends to the ALPN list or the ECH config list of one target (writing
+	// no element it can see) does not write into what the consumer of another target appended to its own (lists with spare
+	// capacity shared between the targets of one record would make the appends land in the same memory)
+	if w.Stop < 0 && len(got) > 1 {
+		var held []ech.Target
+		res.Targets(w.Network)(func(t ech.Target) bool { held = append(held, t); return true })
+		var alpns [][]string
+		var echs [][]byte
+		for i, t := range held {
+			alpns = append(alpns, append(t.ALPN, fmt.Sprint("appended-by-consumer-", i)))
+			echs = append(echs, append(t.ECH, byte(i)))
+		}
+		for i := range held {
+			if a := alpns[i]; a[len(a)-1] != fmt.Sprint("appended-by-consumer-", i) {
+				r.Violation("impure:targets-share-spare-capacity:alpn", fmt.Sprintf("the consumer of target %d appended %q to the ALPN list it was handed; after the consumers of the other targets did the same with theirs, its list ends in %q", i, fmt.Sprint("appended-by-consumer-", i), a[len(a)-1]), w)
+				break
+			}
+			if e := echs[i]; e[len(e)-1] != byte(i) {
+				r.Violation("impure:targets-share-spare-capacity:ech", fmt.Sprintf("the consumer of target %d appended the octet %d to the ECH config list it was handed; after the consumers of the other targets did the same with theirs, its list ends in %d", i, i, e[len(e)-1]), w)
+				break
+			}
+		}
+		if again, _ := collect(res, w.Network, -1); !reflect.DeepEqual(again, got) {
+			r.Violation("impure:result-changed-by-consumer-appends", fmt.Sprintf("after consumers appended to the lists of the targets they held, the same result yields %v (before: %v)", again, got), w)
+		}
+	}
 	// a consumer may do what it likes with the targets it was handed (sort the ALPN list, overwrite entries): an enumeration of
 	// ANOTHER result built from the same description still gives the reference targets (nothing is shared between results
 	// through package-level storage)
@@ -613,6 +648,80 @@ func Run(r *ev.Run) {
 				r.Sample(w)
 			}
 		})
+	}
+	// family S (round 10): results built by hand, compared with the specification applied to the same result.
+	// S1 addresses that are special to some layer but ordinary to this one (unspecified, broadcast, loopback, link-local,
+	// multicast, the mapped unspecified address) in every position; S2 scale: n distinct address/port pairs followed by a repeat of
+	// the i-th, for every i, over origin addresses, target addresses and hints (a de-duplication that changes its representation
+	// at some size forgets or invents a pair there)
+	{
+		nS := 0
+		evalS := func(tag string, res ech.ResolveResult, desc any) {
+			for _, network := range []string{"tcp", "tcp4", "tcp6"} {
+				got, _ := collect(res, network, -1)
+				w0, w1 := referenceOf(res, network, int(res.Port), false), referenceOf(res, network, int(res.Port), true)
+				oc := fmt.Sprintf("n=%d", len(got))
+				if !reflect.DeepEqual(got, w0) && !reflect.DeepEqual(got, w1) {
+					oc = "differs"
+					r.Violation("sequence-differs:"+tag, fmt.Sprintf("Targets(%q) differ from the reference:\n got  %v\n want %v", network, got, w0), desc)
+				}
+				r.Eval(fmt.Sprintf("S|%s|%v|%s", tag, desc, network), oc)
+				nS++
+			}
+		}
+		special := []net.IP{net.IPv4zero.To4(), net.IPv6unspecified, net.IPv4bcast.To4(), {127, 0, 0, 1}, net.IPv6loopback, net.ParseIP("::ffff:0.0.0.0").To16(), net.ParseIP("fe80::1"), {224, 0, 0, 1}, net.ParseIP("ff02::1")}
+		for i, ip := range special {
+			for pos := 0; pos < 4; pos++ {
+				res := ech.ResolveResult{Port: 443, Additional: map[string][]net.IP{}}
+				h := dns.HTTPS{Priority: 1, ECH: []byte{0, 1, 0xec}, ALPN: []string{"h2"}}
+				switch pos {
+				case 0: // origin address, record for the origin
+					res.Address = []net.IP{ip, v4a}
+				case 1: // the target's only address (the origin's addresses must then stay unused)
+					h.Target = "t1"
+					res.Additional["t1"] = []net.IP{ip}
+					res.Address = []net.IP{v4a, v6a}
+				case 2: // hint (the origin has no address)
+					if len(ip) == 4 {
+						h.IPv4Hint = []net.IP{ip}
+					} else {
+						h.IPv6Hint = []net.IP{ip}
+					}
+				case 3: // no HTTPS record at all: plain addresses
+					res.Address = []net.IP{ip}
+				}
+				if pos != 3 {
+					res.HTTPS = []dns.HTTPS{h}
+				}
+				evalS("special-address", res, fmt.Sprintf("address %d (%v) in position %d", i, ip, pos))
+			}
+		}
+		distinct := func(n int) []net.IP {
+			var l []net.IP
+			for k := 0; k < n; k++ {
+				l = append(l, net.IP{10, 77, byte(k >> 8), byte(k)})
+			}
+			return l
+		}
+		for _, n := range []int{1, 2, 7, 8, 9, 10, 15, 16, 17, 31, 32, 33, 64, 65} {
+			for i := 0; i < n; i++ {
+				if n > 17 && i != 0 && i != n-1 && i != n/2 && i != 7 && i != 8 && i != 9 {
+					continue
+				}
+				l := distinct(n)
+				rep := append(slices.Clone(l), l[i])
+				h := dns.HTTPS{Priority: 1, ECH: []byte{0, 1, 0xec}}
+				h2 := dns.HTTPS{Priority: 2, ECH: []byte{0, 2, 0xec}, ALPN: []string{"h3"}, NoDefaultALPN: true} // a later record that repeats the pair: its own list must not win
+				evalS("scale:origin", ech.ResolveResult{Port: 443, Address: rep, HTTPS: []dns.HTTPS{h, h2}}, fmt.Sprintf("%d distinct origin addresses then a repeat of number %d", n, i))
+				ht, h2t := h, h2
+				ht.Target, h2t.Target = "t1", "t2"
+				evalS("scale:targets", ech.ResolveResult{Port: 443, Address: []net.IP{v4a}, Additional: map[string][]net.IP{"t1": l, "t2": {l[i], v4b}}, HTTPS: []dns.HTTPS{ht, h2t}}, fmt.Sprintf("%d distinct addresses of target t1, then target t2 = {number %d, another}", n, i))
+				hh := h
+				hh.IPv4Hint = rep
+				evalS("scale:hints", ech.ResolveResult{Port: 443, HTTPS: []dns.HTTPS{hh, h2}}, fmt.Sprintf("%d distinct hints then a repeat of number %d", n, i))
+			}
+		}
+		sizes = append(sizes, nS)
 	}
 	r.Set("families", fmt.Sprint(sizes))
 	total := 0
